@@ -24,6 +24,7 @@ EXPLANATION = (
     'operation is performed before the upload; per constructor parameter: bounded by raising guards, probed by a failing lookup, or used by an operation that is '
     'performed before the upload. Table agreement between the settings validators and the consumers; provenance of the props installed by unlock; provenance of '
     'the key that encrypts a new private section; pass-through of key material in the KDF adapters. Rules C17.R1-R6.'
+    ' Added with the seeded-defect rounds: unlock refuses only missing inputs and derives the user key from the key\'s own salt, KDF lengths follow the cipher, kept hashing contexts are used through copy(), loader skip whitelist.'
 )
 NOT_DECIDED = 'usability of every accepted point of the settings lattice (needs execution per configuration); KDF cost limits'
 TRUSTED = ['hashlib / cryptography raise on parameters they cannot serve', 'CPython ast']
